@@ -1,12 +1,16 @@
 """C20 — neighbourhoods on index topologies (Topology::find_neighbors, decompose_index, euclidean_distance)."""
 import math, random, struct
+import vcheck
 from vcheck import Stream, sx_str, sx_parse, run_impl, run_model, die
 
 PROPERTY = "C20"
-PROPS_VO = ["Props/C20", "Props/C20i"]
+PROPS_VO = ["Props/C20", "Props/C20i", "Props/FloatFacts"]
 AXIOMS_OK = []
+AXIOMS_OK_BY_FILE = {"Props/FloatFacts": vcheck.FLOCQ_AXIOMS}
+THEOREM_FILTER = {"Props/FloatFacts": r"FF_(C20_|fie_|FloatIntExact|powf_sq)"}
 KNOWN_SUITE = {"topo": "topo.known"}
 ASSUMPTIONS = [
+    "every field of FloatIntExact is a THEOREM for the Flocq binary32 instance (Props/FloatFacts.v FF_fie_*); fie_sq_powf speaks about libm's powf and holds for oracle tables that answer powf(d, 2.0) with d*d (FF_FloatIntExact; such a table exists: FF_powf_sq_table_inhabited; Rust's powf is compared with d*d by stream float-facts); the Release-profile theorems need no table assumption (FF_C20_*_flocq)",
     "theorems are parametric in the float interface (FloatOps) and assume the record FloatIntExact: IEEE-754 binary32 facts on integers below 2^24 "
     "(exact +, exact (a-b).powf(2.0), exact sqrt of perfect squares, monotone sqrt, comparison agrees with integer order, sqrt 0 = 0, <= transitive); "
     "every field is evaluated on Rust's own f32 by the 'f32-facts' stream of this check (sub-operation 3) and on the Flocq instance by the correspondence",
